@@ -383,9 +383,10 @@ def conds(tier):
                      encodes=ENC),
                 Cond("debugbatch", mk(4, True), [I("plan", 0, 0)] + params(4)[1:], pin=2, builds=("C",), budget=200,
                      family="same histories on DebugBatch/DebugBatchItem", encodes=ENC)]
-    return [Cond("hist", mk(5), params(5), pin=3, builds=("C",), budget=3000,
-                 family="batch API histories of length 5 x %d flush-body plans" % len(PLANS), encodes=ENC),
-            Cond("histP", mk(4), params(4), pin=2, builds=("P",), budget=1200,
-                 family="batch API histories of length 4 (pure build)", encodes=ENC),
-            Cond("debugbatch", mk(5, True), [I("plan", 0, 0)] + params(5)[1:], pin=2, builds=("C", "P"), budget=900,
+    P5 = [0, 8]
+    return [Cond("hist5", mk(5, plans=P5), params(5, len(P5)), pin=3, builds=("C",), budget=3000,
+                 family="batch API histories of length 5 x plans %s" % [PLANS[i] for i in P5], encodes=ENC),
+            Cond("hist4", mk(4), params(4), pin=2, builds=("C", "P"), budget=1200,
+                 family="batch API histories of length 4 x all %d plans (both builds)" % len(PLANS), encodes=ENC),
+            Cond("debugbatch", mk(4, True), [I("plan", 0, 0)] + params(4)[1:], pin=2, builds=("C", "P"), budget=900,
                  family="same histories on DebugBatch/DebugBatchItem", encodes=ENC)]
